@@ -548,8 +548,8 @@ class C06Engine(GenEngineBase):
 
     def tier_cfg(self, tier):
         if tier == "quick":
-            return {"episodes": 600}
-        return {"episodes": None, "budget_s": 900.0, "min_episodes": 600}
+            return {"episodes": 1000}
+        return {"episodes": None, "budget_s": 900.0, "min_episodes": 1000}
 
     def make_case(self, seed, tier="quick"):
         kn = stream(seed, "interp")
@@ -557,7 +557,7 @@ class C06Engine(GenEngineBase):
         cfg = dict(targets=["stablehlo", "xla_client", "xla_client", "stablehlo", "cpp", "python"], n_requests=24 if tier == "quick" else 40,
                    allow_faults=True, shared=True, p_shared_choices=[0.3, 0.6, 0.9],
                    allow_env=["clang_absent", "clang_exit1", "clang_killed", "clang_noisy", "clang_noisy", "clang_partial", "clang_partial", "tmpdir_unwritable"] if faulty else None,
-                   reprint_targets=["stablehlo", "python", "cpp"], generated_programs=0.35, races=0.5)
+                   reprint_targets=["stablehlo", "python", "cpp"], generated_programs=0.35, races=0.5, scenarios=0.4)
         return {"seed": seed, "hashseed": None, "history": H.gen_history(seed, self.universe, cfg)}
 
     def run_case(self, case):
